@@ -122,7 +122,7 @@ theorem titan_absorb (cfg : Cfg) (s : St) (n : Nat) (rest b : Bytes) (hl : s.los
                    if n = 0 ∨ s1.buf.length ≥ n then dispatchT cfg s1 else { s1 with phase := .awaitTitan }) (.data b))
         (let s1 := { s with buf := rest ++ b, size := n }
          if n = 0 ∨ s1.buf.length ≥ n then dispatchT cfg s1 else { s1 with phase := .awaitTitan }) := by
-  obtain ⟨phase, buf, timer, lost, sent, out, hcalls, ucalls, mwcalls, allowed, size, content⟩ := s
+  obtain ⟨phase, buf, timer, lost, sent, out, hcalls, ucalls, mwcalls, allowed, size, content, now, req⟩ := s
   simp only at hl; subst hl
   simp only
   by_cases hc : n = 0 ∨ rest.length ≥ n
@@ -167,21 +167,21 @@ theorem onLine_absorb (cfg : Cfg) (s : St) (line rest b : Bytes) (hl : s.lost = 
   simp only
   split
   · -- invalid UTF-8
-    exact eqv_finish (f := fun t => respondFixed t 59 "Invalid UTF-8 encoding") s rest (rest ++ b) b
+    exact eqv_finish (f := fun t => respondFixed t 59 "Invalid UTF-8 encoding") { s with req := some line } rest (rest ++ b) b
       (fun t z => respondFixed_buf t z _ _) (fun t => respondWith_dead _ _)
   · split
     · split
-      · exact eqv_finish (f := fun t => respondFixed t 50 "Titan uploads not supported on this server") s rest (rest ++ b) b
+      · exact eqv_finish (f := fun t => respondFixed t 50 "Titan uploads not supported on this server") { s with req := some line } rest (rest ++ b) b
           (fun t z => respondFixed_buf t z _ _) (fun t => respondWith_dead _ _)
       · split
-        · exact eqv_finish (f := fun t => respondDyn t 59) s rest (rest ++ b) b
+        · exact eqv_finish (f := fun t => respondDyn t 59) { s with req := some line } rest (rest ++ b) b
             (fun t z => respondDyn_buf t z _) (fun t => respondWith_dead _ _)
         · rename_i n _
-          exact titan_absorb cfg s n rest b hl
+          exact titan_absorb cfg { s with req := some line } n rest b hl
     · split
-      · exact eqv_finish (f := fun t => dispatchG cfg { t with timer := false }) s rest (rest ++ b) b
+      · exact eqv_finish (f := fun t => dispatchG cfg { t with timer := false }) { s with req := some line } rest (rest ++ b) b
           (fun t z => dispatchG_buf cfg { t with timer := false } z) (fun t => dispatchG_dead _ _)
-      · exact eqv_finish (f := fun t => respondDyn { t with timer := false } 59) s rest (rest ++ b) b
+      · exact eqv_finish (f := fun t => respondDyn { t with timer := false } 59) { s with req := some line } rest (rest ++ b) b
           (fun t z => respondDyn_buf { t with timer := false } z _) (fun t => respondWith_dead _ _)
 
 end Srv
@@ -368,6 +368,11 @@ theorem step_buf (cfg : Cfg) (s : St) (x : Bytes) (e : Ev) (he : ∀ c, e ≠ .d
     split
     · exact respondFixed_buf s x _ _
     · rfl
+  | tick dt =>
+    simp only [step]
+    split
+    · exact respondFixed_buf { s with now := s.now + dt } x _ _
+    · rfl
   | lost => rfl
   | mwAllow =>
     by_cases h1 : s.phase = .mwG
@@ -433,6 +438,7 @@ theorem dead_step (cfg : Cfg) (s : St) (e : Ev) (h : Dead s) : Dead (step cfg s 
   cases e with
   | data c => rw [dead_data _ _ _ h]; exact h
   | timeout => simp only [step]; split; exact respondWith_dead _ _; exact h
+  | tick dt => simp only [step]; split; exact respondWith_dead _ _; exact h
   | lost => left; rfl
   | mwAllow =>
     simp only [step]; split
@@ -449,12 +455,12 @@ theorem dead_step (cfg : Cfg) (s : St) (e : Ev) (h : Dead s) : Dead (step cfg s 
 theorem eqv_eq_of_alive {s t : St} (h : Eqv s t) (hn : ¬ Dead s) : s = t := by
   obtain ⟨h1, h2⟩ := h
   have hb := h2 hn
-  obtain ⟨p1, b1, t1, l1, s1, o1, h1', u1, m1, a1, z1, c1⟩ := s
-  obtain ⟨p2, b2, t2, l2, s2, o2, h2', u2, m2, a2, z2, c2⟩ := t
+  obtain ⟨p1, b1, t1, l1, s1, o1, h1', u1, m1, a1, z1, c1, n1, r1⟩ := s
+  obtain ⟨p2, b2, t2, l2, s2, o2, h2', u2, m2, a2, z2, c2, n2, r2⟩ := t
   simp only [St.mk.injEq] at h1 ⊢
   simp only at hb
-  obtain ⟨e1, _, e3, e4, e5, e6, e7, e8, e9, e10, e11, e12⟩ := h1
-  exact ⟨e1, hb, e3, e4, e5, e6, e7, e8, e9, e10, e11, e12⟩
+  obtain ⟨e1, _, e3, e4, e5, e6, e7, e8, e9, e10, e11, e12, e13, e14⟩ := h1
+  exact ⟨e1, hb, e3, e4, e5, e6, e7, e8, e9, e10, e11, e12, e13, e14⟩
 
 /-- `≈` is preserved by every event -/
 theorem eqv_step (cfg : Cfg) {s t : St} (h : Eqv s t) (e : Ev) : Eqv (step cfg s e) (step cfg t e) := by
